@@ -39,7 +39,9 @@ def bounds(tier):
     return dict(classes="all concrete kit classes + {} dynamically defined classes".format(len(DYNAMIC)),
                 histories=("all ordered pairs (validate A; query B); define interleaved before / between / after" if tier == "quick"
                            else "all ordered pairs + all ordered triples (validate A; validate B; query C) inside each kit family"),
-                witnesses="own instance, own instance rotated so that the match wraps, a long look-alike pair (clean / one extra cutter site in the middle), instances of every class of the same kit",
+                spellings="own instance in lower case and in alternating case",
+                witnesses="own instance, own instance rotated so that the match wraps, a long look-alike pair (clean / one extra cutter site in the middle), instances of every class of the same kit; "
+                          "plain SeqRecords: own instance declared linear, wrapped instance declared linear / LINEAR, wrapped instance with topology Circular",
                 look_alike_priming="every class with the same cutter and kind types its long clean / long illegal instance before the query")
 
 
@@ -132,7 +134,9 @@ def witnesses(name, cls):
            # the same texts handed over as plain SeqRecords: declared linear (the wrapped one cannot be read then), and circular
            # in another spelling
            ("lin:own", own), ("lin:own-wrapped", rm.rot_right(own, n // 2)), ("LIN:own-wrapped", rm.rot_right(own, n // 2)),
-           ("sr:own-wrapped", rm.rot_right(own, n // 2))]
+           ("sr:own-wrapped", rm.rot_right(own, n // 2)),
+           # other spellings of the own instance (what is reported is the record's own text, whatever was typed before)
+           ("own-lower", own.lower()), ("own-alternating", "".join(c.lower() if i % 2 else c for i, c in enumerate(own)))]
     fam = family(name)
     for other in gen.kit_classes():
         if other.__module__ == fam or (fam.endswith("plant") and other.__module__.endswith("moclo")) or \
